@@ -1,6 +1,6 @@
 HOOK_COMMITS = ["bc7826eeb31079b932557c6566a10da9b9acc9ce"]
 _PENDING = "check not built yet in this round (planned, see DESIGN.md section 9); not a statement that the technique cannot apply"
-NOT_APPLICABLE = {p: _PENDING for p in ["C05","C07","C08","C09","C10","C11","C12","C16"]}
+NOT_APPLICABLE = {p: _PENDING for p in ["C05","C08","C09","C10","C11","C12","C16"]}
 TEXT = {
  "C17": {
   "text": "Lean mirror of integer.h / dyadic_rational.h / rational.h; theorems for every modulus m>=2 and every operand state that each "
@@ -98,6 +98,21 @@ TEXT = {
   "design_ref": "5.19",
   "note": "clause (c) is runtime monitoring on generated inputs, not proof (no executable Lean model can exhibit out-of-bounds access); variable_db/variable_order counters are opaque and observed only via sanitizers",
   "technique": "Lean 4 invariant proof (refcount protocol) + correspondence with aliased/pre-used outputs + sanitizer monitoring",
+ },
+ "C07": {
+  "text": "Every result of lp_algebraic_number_add/sub/neg/mul/inv/div/pow/positive_root and every observation (cmp with numbers, "
+          "integers, dyadics, rationals; sgn; floor; ceiling; is_integer; is_rational + to_rational; to_double) is judged on every run by "
+          "the Lean model of real algebraic numbers. Observations: exact decision procedures proved correct for every valid "
+          "representation (Alg.cmp_sound, cmpRat_sound, sgn_sound, floor_sound, valid_sound: the answer, when given, is the order / sign / "
+          "floor of the denoted real). Arithmetic: the model builds the eliminant of x+y, x*y, x^n itself as a Sylvester determinant, "
+          "encloses the exact value by closed interval arithmetic (image_encloses, proved) and refines until exactly one root of the "
+          "eliminant is enclosed; C07_select_sound proves that an accepted result then denotes the exact value. sub/div/neg/inv/root are "
+          "reduced to these (x-y = x+(-y), x/y = x*(1/y), r = root_n(x) iff r >= 0 and r^n = x located inside x's isolating interval). "
+          "Results are also checked for the representation invariants (open isolating interval shorter than 1 without integers, cached "
+          "end-point signs, exactly one root). Trusted, not formalised: the classical fact that the eliminant vanishes at the exact value.",
+  "design_ref": "5.7",
+  "note": "eliminants with deg f + deg g > 7 are skipped and counted; approximations are required to be within 2^-30 (relative for doubles)",
+  "technique": "Lean 4 proved exact comparison / selection (validator) + per-output validation of the C results",
  },
  "C06": {
   "text": "lp_upolynomial_roots_isolate / roots_count / sturm_sequence are judged on every run by a verified real-root counter written in "
